@@ -536,7 +536,25 @@ pub fn base_scenario(
     // basis AND many parameters ...) are reached at a useful rate
     let corner = rng.chance(0.04);
     let sizes = if corner && rng.chance(0.7) { HUGE } else { sizes };
-    let mut model = if corner && rng.chance(0.5) {
+    // "giant" runs (1 in 400, decided by a hash so that all other scenarios keep their
+    // streams): one dimension far beyond the ordinary bounds, where size thresholds of
+    // blocked / chunked / "switch to another path above N" code live (64 columns, 64
+    // right-hand sides, 2^16 matrix elements): 1 = 65-80 nonlinear parameters,
+    // 2 = 64-130 right-hand sides, 3 = >= 65536 elements in the basis matrix
+    let gh = crate::prng::mix(seed, "giant", index);
+    let giant = if gh % 400 == 0 { 1 + ((gh >> 16) % 3) as u8 } else { 0 };
+    let mut model = if giant == 1 {
+        let mut m = gen_model(rng, kind, 40, 80);
+        for _ in 0..400 {
+            if m.nparams >= 65 {
+                break;
+            }
+            m = gen_model(rng, kind, 40, 80);
+        }
+        m
+    } else if giant == 3 {
+        gen_model(rng, kind, 3, 3)
+    } else if corner && rng.chance(0.5) {
         // many nonlinear parameters (up to 20: size thresholds such as 8 or 16 columns)
         let (mm, pp) = if rng.chance(0.4) { (10, 20) } else { (sizes.max_m.max(6), sizes.max_p.max(6)) };
         let want = if pp == 20 { 12 } else { 6 };
@@ -569,8 +587,20 @@ pub fn base_scenario(
     } else {
         1
     };
+    // exact multiples of the usual block sizes are where remainder handling goes wrong
+    let (mrhs, s) = if giant == 2 {
+        (true, if rng.chance(0.4) { *rng.pick(&[64usize, 128]) } else { rng.usize_in(64, 130) })
+    } else {
+        (mrhs, s)
+    };
     let n_lo = (m + p + 1).min(sizes.max_n);
-    let n = if rng.chance(if corner { 0.25 } else { 0.03 }) {
+    let n = if giant == 1 {
+        rng.usize_in(m + p + 1, m + p + 40)
+    } else if giant == 2 {
+        rng.usize_in((m + p + 1).min(24), 24)
+    } else if giant == 3 {
+        65536 / m.max(1) + rng.usize_in(0, 2000)
+    } else if rng.chance(if corner { 0.25 } else { 0.03 }) {
         // square or wide basis matrix: as many basis functions as samples, or more
         rng.usize_in(1, m.max(1))
     } else {
@@ -609,6 +639,10 @@ pub fn base_scenario(
         builder_order: if rng.chance(0.5) { 0 } else { rng.below(6) as u8 },
     };
     let mut sc = sc;
+    if giant != 0 {
+        // keep one giant scenario affordable: few optimizer iterations
+        sc.opt.patience = sc.opt.patience.min(3);
+    }
     // repeated setter calls (see AnyProb::build), drawn without touching the main stream:
     // 1 scenario in 8 calls weights and/or observations twice
     let h = crate::prng::mix(seed, "builder-repeats", index);
